@@ -36,6 +36,20 @@ CLAIMED = {
               "same code."),
         technique="TLA+ input generator + causality relation checked by TLC over traces of the real Schedule (trace validation)",
     ),
+    "C09": dict(
+        category="model_checking",
+        text=("Summary.tla: running totals and vector values as a state machine over a group tree with efficiency factors (exact "
+              "integer arithmetic over a fixed denominator), production/injection split by sign, history vectors from the "
+              "schedule's observed rates, derived vectors (liquid, water cut, GOR, GLR), calendar vectors.  MC_Summary model-checks "
+              "conservation (a node's total is the sum of its wells' totals), hierarchical group rates, monotone totals and that "
+              "shut wells stand still.  Oracle_Summary runs every generated history through the same Eval action; "
+              "harness/smryeval drives the real out::Summary::eval + SummaryState with the same history; the values of ~40 "
+              "vector families at every well, group and the field are compared after every evaluation."),
+        design_ref="DESIGN.md section 5, C09",
+        note=("Trusted: TLC; UnitSystem for feeding SI rates; python comparison to 1e-9 relative.  Not covered: region, block, "
+              "segment, connection and aquifer vectors, wells created after the first report step, STOP status, group control vectors."),
+        technique="TLA+ reference state machine evaluated by TLC (oracle) against out::Summary::eval on generated histories + TLC model checking of conservation laws",
+    ),
     "C10": dict(
         category="model_checking",
         text=("SummaryFile.tla (over EclFileFormat): the legacy reader's single-value offset arithmetic is transcribed and "
